@@ -844,7 +844,18 @@ def classify(case, msg):
         return None
     if not semantic:
         return None
-    if any(dropped_edges(f) for f in _reachable(m, msg.split("[", 1)[0])):
+    reach = _reachable(m, msg.split("[", 1)[0])
+    try:
+        # look at the control flow graph ir_to_wasm structures: with fixes/C23-phi-edges.diff it first gives every
+        # branch edge into a phi block a block of its own (m is a private copy)
+        from ppci.wasm import ppci2wasm
+
+        if hasattr(ppci2wasm, "split_phi_edges"):
+            for f in reach:
+                ppci2wasm.split_phi_edges(f)
+    except Exception:
+        pass
+    if any(dropped_edges(f) for f in reach):
         return "C23-KF6"
     if "module" in case and phi_on_branch_edge(case["module"]):
         c2 = dict(case)
